@@ -138,6 +138,22 @@ QJsonObject generate()
         c["parkEvery"] = 0;
         c["convoy"] = true;
     }
+    if (!c.contains("convoy") && c["subject"].toString() != "install" && chance(12)) {
+        // hot: several producers call back to back, no handler takes any time, nobody parks - hand-over schemes ("the thread that
+        // is inside also delivers what arrived meanwhile") lose their wake-ups here, where a slow sink would hide them
+        c["producers"] = pick(3, 8);
+        c["perProducer"] = pick(500, 2500);
+        c["preDelay"] = 0;
+        c["firstUs"] = 0;
+        c["midUs"] = 0;
+        c["sinkUs"] = 0;
+        c["parkEvery"] = 0;
+        c["extraLogger"] = false;
+        c["hot"] = true;
+        // a pipeline that costs less than making the message: the handler falls idle between two messages all the time, which is
+        // when a hand-over scheme has to get its "nobody inside any more" right
+        c["light"] = chance(60);
+    }
     return c;
 }
 
@@ -201,7 +217,28 @@ std::string runInstallRace(const QJsonObject &c)
     return "";
 }
 
+std::string runOnce(const QJsonObject &c);
+
+// a replay repeats the shape: whether a broken hand-over or lock shows in one execution of a schedule shape is up to the scheduler
 std::string run(const QJsonObject &c)
+{
+    if (!getenv("VERIF_REPLAY")) return runOnce(c);
+    // The search runs several harness processes side by side, so its threads are preempted all the time; a replay runs alone.
+    // Spinning threads (one per core) give the replay the same oversubscribed machine, and the shape is repeated.
+    std::atomic<bool> stopSpin { false };
+    std::vector<std::thread> spinners;
+    const unsigned cores = std::max(2u, std::thread::hardware_concurrency());
+    for (unsigned i = 0; i < cores; i++)
+        spinners.emplace_back([&] { while (!stopSpin) { for (volatile int k = 0; k < 20000; k++) { } if (nowNs() % 7 == 0) std::this_thread::yield(); } });
+    std::string why;
+    const int reps = c["hot"].toBool() ? 40 : 10;
+    for (int i = 0; i < reps && why.empty(); i++) why = runOnce(c);
+    stopSpin = true;
+    for (auto &t : spinners) t.join();
+    return why;
+}
+
+std::string runOnce(const QJsonObject &c)
 {
     const QString subject = c["subject"].toString();
     if (subject == "install") return runInstallRace(c);
@@ -234,7 +271,8 @@ std::string run(const QJsonObject &c)
     const bool nested = subject == "nested";
     if (subject == "bare") {
         bare = new OwnThreadHandler<Pipeline>();
-        *bare << probeIn << seq << recSeq << dup << pretty << mkSink(sinkAll) << probeOut;
+        if (c["light"].toBool()) *bare << probeIn << seq << recSeq << mkSink(sinkAll) << probeOut; // handlers that take next to no time
+        else *bare << probeIn << seq << recSeq << dup << pretty << mkSink(sinkAll) << probeOut;
     } else {
         logger = new Logger();
         *logger << probeIn << seq << recSeq << dup << pretty;
@@ -328,6 +366,7 @@ std::string run(const QJsonObject &c)
     cls("producers>16", P > 16);
     cls("another_logger_destroyed_meanwhile", c["extraLogger"].toBool());
     cls("convoy_waiting_seconds_at_the_lock", convoy);
+    cls("hot_back_to_back_producers", c["hot"].toBool());
     cls("subject_" + subject.toStdString());
     cls("calls_overlapped", overlapping > 0);
     cls("park_during_overlap", parksDuringOverlap > 0);
@@ -375,7 +414,7 @@ std::string run(const QJsonObject &c)
         if (!(d = checkSink("category 'net' sink", sinkNet, [&](int p, int i) { return isNet(p, i); }, false)).empty()) return d;
     }
     // PrettyFormatter's thread table: one label per thread, labels distinct, at most P of them
-    {
+    if (!(bare && c["light"].toBool())) {
         std::map<int, int> labelOf; // producer -> label (0 = blank field)
         std::map<int, int> owner;   // label -> producer
         static const QRegularExpression re(QStringLiteral("^\\d\\d\\.\\d\\d\\.\\d{4} \\d\\d:\\d\\d:\\d\\d . (T(\\d+) | {3,5})?"));
